@@ -171,8 +171,17 @@ Proof. vm_compute. repeat split. Qed.
    written (one [h5_create] per create_dataset call of the source), load_h5 reads one ([h5_read_*] per f[NAME][:]).
    [h5_close] / [h5_close_space] is the representation map raw file -> the model's record (every dataset of the record is
    present under its name).  Trusted: the translator and the configured primitives (h5py create_dataset / f[NAME][:] /
-   attrs per literal name, the string codec as the identity with str / bytes kept apart, the attribute reads of a
-   Screen, Screen(...) / ExperimentSpace(...) as the model constructors on the arrays the call site passes). *)
+   attrs per literal name, numpy's np.char.encode / decode / np.empty inside the translated codec helpers, the attribute reads
+   of a Screen, Screen(...) / ExperimentSpace(...) as the model constructors on the arrays the call site passes). *)
+
+(* the helpers encode_string_array / decode_string_array, translated too (1-d and 2-d arrays): with their
+   `arr.size == 0` guard they are the identity on the strings of every array, also one without elements - where
+   np.char.encode / decode alone answer with a float64 array (tag 33, the defect repaired in /repo 81a412f) *)
+Theorem C02_model_is_source_string_codec :
+  (forall a : list name, src_encode_string_array_1d a = Ok a) /\ (forall a : h5_2d name, src_encode_string_array_2d a = Ok a) /\
+  (forall a : list bname, src_decode_string_array_1d a = Ok a) /\ (forall a : h5_2d bname, src_decode_string_array_2d a = Ok a).
+Proof. exact src_string_codec_is_identity. Qed.
+Print Assumptions C02_model_is_source_string_codec.
 
 (* Screen.save_h5 writes exactly the model's file: the 14 datasets + 1 attribute under the names the model gives
    them, each from the attribute of the screen the model says - the six mapping datasets included; stated through
@@ -245,4 +254,10 @@ Example C02_ex_source_raw :
   | Err _ => False
   end
   /\ src_screen_load_h5 h5_empty = Err 30 /\ src_space_load_h5 h5_empty = Err 30.
+Proof. vm_compute. repeat split. Qed.
+
+(* what the guard of the codec helpers is for: numpy's own codec on arrays without elements *)
+Example C02_ex_codec_guard :
+  np_char_codec1 [] = Err 33 /\ np_char_codec2 (2%nat, []) = Err 33 /\ np_char_codec2 (0%nat, [[]; []]) = Err 33
+  /\ src_encode_string_array_2d (2%nat, []) = Ok (2%nat, []) /\ src_decode_string_array_1d [] = Ok [].
 Proof. vm_compute. repeat split. Qed.
